@@ -18,12 +18,13 @@ fn arg<'a>(args: &'a [String], name: &str) -> Option<&'a str> {
 
 fn default_runs(prop: &str, tier: &str) -> u64 {
     let quick: u64 = match prop {
-        "C05" => 1500,
-        "C06" => 4000,
-        "C16" => 3000,
-        "C13" => 60000,
-        "C15" => 6000,
-        _ => 8000,
+        "C05" => 8000,
+        "C06" => 20000,
+        "C16" => 15000,
+        "C13" => 300000,
+        "C15" => 30000,
+        "C09" | "C11" => 30000,
+        _ => 40000,
     };
     if tier == "thorough" {
         quick * 20
